@@ -269,6 +269,8 @@ def extract(model_py: Path):
             "loads_before": [e[2:] for e in ev[:first_write] if e[0] == "L"],
             "ctx": [e[2:] for e in ev if e[0] == "I"],
             "containers": [e.split(":")[1] for e in ev if e[0] == "C"],
+            # the rejecting statements themselves (conditions included), normalised like the helper bodies
+            "guards": [x for x in _normalised_body(m) if "raise" in x],
         })
     return rows
 
@@ -414,6 +416,245 @@ def arity_checked(cls):
     return names, exc, lp.lineno < sort_line
 
 
+# --------------------------------------------------------------------------- the whole surface of `class Model`
+
+ALL_STATE = CONTAINERS | {"_ids", "_cache"}
+# the private functions that may write the model's state directly, and what they write
+STATE_WRITERS = {"_insert_id": {"_ids"}, "_remove_id": {"_ids"}, "_create_cache": {"_cache"}}
+# ways a method that is not a mutator may look at one of the model's own dictionaries without being able to
+# change it: `<d>.items()` …, `f(<d>)` for a copying / measuring `f`, `x in <d>`, `a | <d>`, iteration, `<d>[k]`
+READ_ATTRS = {"items", "keys", "values", "get", "copy"}
+READ_CALLS = {"set", "list", "len", "dict", "sorted", "tuple", "frozenset", "copy.deepcopy", "copy.copy", "iter"}
+HELPERS = ("_insert_id", "_remove_id", "_check_new_ids", "_check_known_names", "_scaled_value")
+
+
+def _is_public(name):
+    return not name.startswith("_") or (name.startswith("__") and name.endswith("__"))
+
+
+def _parents(fn):
+    par = {}
+    for n in ast.walk(fn):
+        for c in ast.iter_child_nodes(n):
+            par[c] = n
+    return par
+
+
+def _direct_writes(fn):
+    """names of the state attributes (`_ids`, `_cache`, the seven containers) a function body writes itself"""
+    out = set()
+    for n in ast.walk(fn):
+        if isinstance(n, ast.Subscript) and isinstance(n.ctx, (ast.Store, ast.Del)) and _is_self_attr(n.value, ALL_STATE):
+            out.add(n.value.attr)
+        elif isinstance(n, ast.Attribute) and isinstance(n.ctx, (ast.Store, ast.Del)) and _is_self_attr(n):
+            out.add(n.attr)
+        elif (isinstance(n, ast.Call) and isinstance(n.func, ast.Attribute) and n.func.attr in MUTATING
+              and _is_self_attr(n.func.value, ALL_STATE)):
+            out.add(n.func.value.attr)
+        elif isinstance(n, ast.Call) and isinstance(n.func, ast.Name) and n.func.id in ("setattr", "delattr", "vars"):
+            raise Unsupported(f"{n.func.id}() in {fn.name}")
+        elif isinstance(n, ast.Attribute) and n.attr == "__dict__":
+            raise Unsupported(f"__dict__ in {fn.name}")
+    return out
+
+
+def _reference_shapes(fn):
+    """how a NON-mutator refers to the model's own dictionaries; -> list of (container, 'live') for the references
+    that hand out the dictionary itself (`return self._x`, `d = self._x`); any shape that is neither a read nor one
+    of those is refused"""
+    par = _parents(fn)
+    live = []
+    for n in ast.walk(fn):
+        if not _is_self_attr(n, CONTAINERS | {"_ids"}) or not isinstance(n.ctx, ast.Load):
+            continue
+        p = par[n]
+        if isinstance(p, ast.Attribute) and p.value is n:
+            if p.attr in READ_ATTRS:
+                continue
+            if p.attr in MUTATING:
+                continue  # counted by _direct_writes
+            raise Unsupported(f"{fn.name}: self.{n.attr}.{p.attr}")
+        if isinstance(p, ast.Call) and n in p.args:
+            if ast.unparse(p.func) in READ_CALLS:
+                continue
+            raise Unsupported(f"{fn.name}: self.{n.attr} passed to {ast.unparse(p.func)}")
+        if isinstance(p, ast.Subscript) and p.value is n:
+            continue
+        if isinstance(p, (ast.Compare, ast.BinOp, ast.IfExp, ast.BoolOp, ast.UnaryOp)):
+            if isinstance(p, ast.BinOp) and not isinstance(p.op, ast.BitOr):
+                raise Unsupported(f"{fn.name}: operator on self.{n.attr}")
+            continue
+        if isinstance(p, (ast.For, ast.comprehension)) and p.iter is n:
+            continue
+        if isinstance(p, ast.Return) or (isinstance(p, ast.Assign) and all(isinstance(t, ast.Name) for t in p.targets)):
+            live.append(n.attr)
+            continue
+        raise Unsupported(f"{fn.name}: self.{n.attr} used in {type(p).__name__}")
+    return live
+
+
+def surface(cls, mutators):
+    """every function the class body defines: is it public, a property, does it reach the cache (`self._cache` /
+    `_create_cache`, transitively through calls on `self`), which dictionaries does it hand out live.
+    Refuses: a non-mutator that writes `_ids` / a container (directly or through a call on `self`), a write of
+    `_cache` outside `_create_cache`, nested classes / async defs / a second definition of a name."""
+    meths = {}
+    for n in cls.body:
+        if isinstance(n, (ast.AsyncFunctionDef, ast.ClassDef)):
+            raise Unsupported(f"class-level {type(n).__name__} {n.name}")
+        if isinstance(n, ast.FunctionDef):
+            if n.name in meths:
+                raise Unsupported(f"{n.name} defined twice")
+            meths[n.name] = n
+    info = {}
+    for name, fn in meths.items():
+        decos = [ast.unparse(d) for d in fn.decorator_list]
+        if set(decos) - {"_invalidate_cache", "property", "staticmethod"}:
+            raise Unsupported(f"decorator {decos} on {name}")
+        calls, cache = set(), False
+        for s in ast.walk(fn):
+            if _is_self_attr(s):
+                if s.attr == "_cache":
+                    cache = True
+                elif s.attr in meths:
+                    calls.add(s.attr)
+                elif s.attr not in ALL_STATE:
+                    raise Unsupported(f"{name} uses self.{s.attr}, which the class does not define")
+            elif isinstance(s, ast.Name) and s.id == "Model" and name not in ("check_units",):
+                raise Unsupported(f"{name} refers to the class Model")
+        info[name] = {"calls": calls, "cache": cache, "writes": _direct_writes(fn),
+                      "prop": "property" in decos, "public": _is_public(name)}
+
+    def closure(name, key, seen):
+        if name in seen:
+            return set() if key == "writes" else False
+        seen.add(name)
+        if key == "writes":
+            out = set(info[name]["writes"])
+            for c in info[name]["calls"]:
+                out |= closure(c, key, seen)
+            return out
+        return info[name]["cache"] or any(closure(c, key, seen) for c in info[name]["calls"])
+
+    rows, live = [], []
+    for name, fn in meths.items():
+        w_direct = info[name]["writes"]
+        w_all = closure(name, "writes", set())
+        if name in STATE_WRITERS:
+            if w_direct != STATE_WRITERS[name]:
+                raise Unsupported(f"{name} writes {sorted(w_direct)}")
+        elif name in mutators:
+            if "_cache" in w_direct or "_ids" in w_direct:
+                raise Unsupported(f"{name} writes self._cache / self._ids directly")
+        else:
+            if w_direct:
+                raise Unsupported(f"{name} writes {sorted(w_direct)} but is not a mutator the model knows")
+            if w_all - {"_cache"}:
+                raise Unsupported(f"{name} reaches a write of {sorted(w_all - {'_cache'})} but is not a mutator the model knows")
+            for c in _reference_shapes(fn):
+                live.append((name, c))
+        rows.append({"name": name, "public": info[name]["public"], "prop": info[name]["prop"],
+                     "cache": closure(name, "cache", set()), "mutator": name in mutators})
+    return rows, live
+
+
+def _normalised_body(fn):
+    """the statements of a small helper, one string each: docstring and `msg = …` lines dropped, `raise C(msg)` →
+    `raise C`, parameters and locals renamed v0, v1, … by first appearance (so renaming a local is not a change)"""
+    ren = {}
+
+    def nm(x):
+        if x == "self":
+            return x
+        if x not in ren:
+            ren[x] = f"v{len(ren)}"
+        return ren[x]
+
+    local = {a.arg for a in fn.args.args + fn.args.kwonlyargs}
+    if fn.args.vararg:
+        local.add(fn.args.vararg.arg)
+    if fn.args.kwarg:
+        local.add(fn.args.kwarg.arg)
+    for n in ast.walk(fn):
+        if isinstance(n, ast.Name) and isinstance(n.ctx, ast.Store):
+            local.add(n.id)
+    for a in fn.args.args + fn.args.kwonlyargs:
+        nm(a.arg)
+
+    class Ren(ast.NodeTransformer):
+        def visit_Name(self, node):
+            if node.id in local:
+                return ast.copy_location(ast.Name(id=nm(node.id), ctx=node.ctx), node)
+            return node
+
+        def visit_Raise(self, node):
+            e = node.exc.func if isinstance(node.exc, ast.Call) else node.exc
+            if not isinstance(e, ast.Name):
+                raise Unsupported(f"raise of a non-name in {fn.name}")
+            return ast.copy_location(ast.Raise(exc=ast.Name(id=e.id, ctx=ast.Load()), cause=None), node)
+
+        def visit_Call(self, node):
+            self.generic_visit(node)
+            if isinstance(node.func, ast.Name) and node.func.id == "cast" and len(node.args) == 2:
+                return node.args[1]  # typing.cast is the identity
+            if isinstance(node.func, ast.Attribute) and ast.unparse(node.func.value) == "LOGGER":
+                return ast.Constant(value=None)
+            return node
+
+    def stmts(body):
+        out = []
+        for st in body:
+            if isinstance(st, ast.Expr) and isinstance(st.value, ast.Constant):
+                continue
+            if (isinstance(st, ast.Assign) and len(st.targets) == 1 and isinstance(st.targets[0], ast.Name)
+                    and st.targets[0].id == "msg"):
+                continue
+            if isinstance(st, ast.AnnAssign) and st.value is not None and isinstance(st.target, ast.Name):
+                st = ast.Assign(targets=[st.target], value=st.value, lineno=st.lineno)
+            if isinstance(st, (ast.If, ast.For)):
+                st = type(st)(**{**{f: getattr(st, f) for f in st._fields}, "body": stmts(st.body) or [ast.Pass()],
+                                 "orelse": stmts(st.orelse)})
+            out.append(st)
+        return out
+
+    body = stmts(fn.body)
+    out = []
+    for st in body:
+        st = ast.fix_missing_locations(Ren().visit(st))
+        if isinstance(st, ast.Expr) and isinstance(st.value, ast.Constant) and st.value.value is None:
+            continue
+        txt = ast.unparse(st)
+        txt = "; ".join(l.strip() for l in txt.splitlines() if l.strip() not in ("None",))
+        out.append(txt)
+    return out
+
+
+def helper_bodies(tree, cls):
+    """normalised bodies of the private helpers the model's `insertId`, `removeId`, `checkNewIds`, `checkKnown`,
+    `scaledValue` and `inval` are written after (the `@_invalidate_cache` wrapper included)"""
+    meths = {n.name: n for n in cls.body if isinstance(n, ast.FunctionDef)}
+    out = []
+    for h in HELPERS:
+        if h not in meths:
+            raise Unsupported(f"{h} not found")
+        out.append((h, _normalised_body(meths[h])))
+    deco = next((n for n in tree.body if isinstance(n, ast.FunctionDef) and n.name == "_invalidate_cache"), None)
+    if deco is None:
+        raise Unsupported("_invalidate_cache not found")
+    inner = [n for n in deco.body if isinstance(n, ast.FunctionDef)]
+    rest = [n for n in deco.body if not isinstance(n, ast.FunctionDef)
+            and not (isinstance(n, ast.Expr) and isinstance(n.value, ast.Constant))]
+    if len(inner) != 1 or len(rest) != 1 or not (isinstance(rest[0], ast.Return) and isinstance(rest[0].value, ast.Name)
+                                                 and rest[0].value.id == inner[0].name):
+        raise Unsupported("shape of _invalidate_cache")
+    if inner[0].decorator_list:
+        raise Unsupported("decorated wrapper in _invalidate_cache")
+    body = _normalised_body(inner[0])
+    body = [b.replace(deco.args.args[0].arg, "METHOD") for b in body]
+    out.append(("_invalidate_cache", body))
+    return out
+
+
 def _ev_lean(e):
     k = e[0]
     if k == "I":
@@ -440,7 +681,11 @@ def _strs(l):
     return "[" + ", ".join(f'"{x}"' for x in l) + "]"
 
 
-def render(rows, eqf, arity_body, chain) -> str:
+def _lstr(x):
+    return '"' + x.replace("\\", "\\\\").replace('"', '\\"') + '"'
+
+
+def render(rows, eqf, arity_body, chain, surf=None, live=(), helpers=()) -> str:
     names = [r["name"] for r in rows]
     L = []
     L.append("-- GENERATED by translate/c03.py from src/mxlpy/model.py (class Model); do not edit")
@@ -526,6 +771,12 @@ def render(rows, eqf, arity_body, chain) -> str:
     for r in rows:
         L.append(f"  | .{r['name']} => {_strs(r['containers'])}")
     L.append("")
+    L.append("/-- every statement of the body that can reject the call, WITH its condition (normalised: messages dropped,")
+    L.append("    parameters / locals renamed by first appearance) -/")
+    L.append("def guards : Mut → List String")
+    for r in rows:
+        L.append(f"  | .{r['name']} => [" + ", ".join(_lstr(g) for g in r["guards"]) + "]")
+    L.append("")
     L.append("/-- dataclass fields of `Model` that the generated `__eq__` compares (no `compare=False`) -/")
     L.append(f"def eqFields : List String := {_strs(eqf)}")
     L.append("")
@@ -551,6 +802,30 @@ def render(rows, eqf, arity_body, chain) -> str:
     L.append("/-- the sanity-check loop precedes the dependency sort (its exception wins over a missing dependency) -/")
     L.append(f"def arityBeforeSort : Bool := {'true' if chain[2] else 'false'}")
     L.append("")
+    if surf is not None:
+        L.append("/-- every PUBLIC function the body of `class Model` defines that is not one of the mutators above (no")
+        L.append("    leading underscore, or a dunder), in source order, with: does it reach `self._cache` / `_create_cache`")
+        L.append("    (directly or through calls on `self`).  None of them writes `_ids` or a container (the translator")
+        L.append("    refuses the source otherwise). -/")
+        L.append("def readers : List (String × Bool) := [")
+        pub = [r for r in surf if r["public"] and not r["mutator"]]
+        L.append(",\n".join(f"  ({_lstr(r['name'])}, {'true' if r['cache'] else 'false'})" for r in pub) + "]")
+        L.append("")
+        L.append("/-- the properties among them -/")
+        L.append("def properties : List String := " + _strs([r["name"] for r in pub if r["prop"]]))
+        L.append("")
+        L.append("/-- the private functions of the class, in source order -/")
+        L.append("def privates : List String := " + _strs([r["name"] for r in surf if not r["public"]]))
+        L.append("")
+        L.append("/-- non-mutators that hand out one of the model's own dictionaries itself (`return self._x`, `d = self._x`) -/")
+        L.append("def liveRefs : List (String × String) := ["
+                 + ", ".join(f"({_lstr(a)}, {_lstr(b)})" for a, b in live) + "]")
+        L.append("")
+        L.append("/-- normalised statements of the private helpers and of the `@_invalidate_cache` wrapper (docstrings and")
+        L.append("    messages dropped, parameters / locals renamed by first appearance) -/")
+        L.append("def helperBodies : List (String × List String) := [")
+        L.append(",\n".join(f"  ({_lstr(h)}, [" + ", ".join(_lstr(x) for x in b) + "])" for h, b in helpers) + "]")
+        L.append("")
     L.append("end Mxl.C03.Gen")
     return "\n".join(L) + "\n"
 
@@ -559,7 +834,9 @@ def generate(repo: Path, outdir: Path) -> None:
     src = Path(repo) / "src" / "mxlpy" / "model.py"
     rows = extract(src)
     tree, cls = _model_class(src)
-    text = render(rows, eq_fields(cls), check_function_arity(tree), arity_checked(cls))
+    surf, live = surface(cls, {r["name"] for r in rows})
+    text = render(rows, eq_fields(cls), check_function_arity(tree), arity_checked(cls), surf, live,
+                  helper_bodies(tree, cls))
     outdir.mkdir(parents=True, exist_ok=True)
     out = outdir / "C03Mutators.lean"
     if not out.exists() or hashlib.sha1(out.read_bytes()).hexdigest() != hashlib.sha1(text.encode()).hexdigest():
